@@ -689,11 +689,12 @@ def check_one_factorization(chk, driver, name, rec, stats, pipeline_error=None):
             {**where, "later_error": f"{type(pipeline_error).__name__}: {str(pipeline_error)[:80]}"})
         return
     if bad is not None:
-        cause = "wf-holds"
-        if model_rejects:
-            cause = "model-rejects"
-        elif not m_wf:
-            cause = _wf_cause(s_nodes, m_nodefacs, targets, rank)
+        # the cause is read off the REAL per-node factors, so the keys stay armed whatever the model says
+        real_nf = [{tuple(int(a) for a in k): int(fi) for k, fi in (v.get("factors") or {}).items()}
+                   for _, v in S.nodes.items()]
+        cause = _wf_cause(s_nodes, real_nf, targets, rank)
+        if cause == "other":
+            cause = "model-rejects" if model_rejects else ("wf-holds" if m_wf else "other")
         chk.violation(key=f"factorization:identity-fails:{cause}",
                       what="compute_argument_factorization accepts the integrand but Σ_k F_k·Π args ≠ S "
                            f"({cause})",
@@ -722,7 +723,9 @@ def _wf_cause(s_nodes, nodefacs, targets, rank):
             return "argument-free-target-dropped"
     for (k, ds) in s_nodes:
         if k == "prod" and len(ds) == 2 and nodefacs[ds[0]] and nodefacs[ds[1]]:
-            return "product-argkey-collision"
+            keys = [tuple(sorted(k0 + k1)) for k0 in nodefacs[ds[0]] for k1 in nodefacs[ds[1]]]
+            if len(set(keys)) != len(keys):
+                return "product-argkey-collision"
     return "other"
 
 
